@@ -1163,6 +1163,23 @@ fn main() {
         }
         c.fns.extend(synth);
     }
+    // a trait-impl method `impl Tr for T { fn m }` whose key collides with an inherent method `impl T { fn m }`
+    // of the same file (e.g. `impl ContractOverrides for RWA { fn transfer }` next to `RWA::transfer`) is
+    // emitted under the key `T::Tr__m` / name `Tr__m`; paths `T::m` keep resolving to the inherent method,
+    // exactly as rustc resolves them.
+    {
+        let inherent: BTreeSet<(String, String)> =
+            c.fns.iter().filter(|f| f.trait_name.is_none() && f.impl_type.is_some()).map(|f| (f.file.clone(), f.key.clone())).collect();
+        for f in c.fns.iter_mut() {
+            if let (Some(tr), Some(ty), false) = (f.trait_name.clone(), f.impl_type.clone(), f.in_trait_decl) {
+                if inherent.contains(&(f.file.clone(), f.key.clone())) {
+                    let nm = format!("{}__{}", tr, f.sig.ident);
+                    f.key = format!("{}::{}", ty, nm);
+                    f.sig.ident = Ident::new(&nm, f.sig.ident.span());
+                }
+            }
+        }
+    }
     // a trait-impl method that has an inherent method of the same type and name next to it
     // (`impl ContractOverrides for AllowList { fn transfer }` beside `impl AllowList { fn transfer }`)
     // gets the three-segment key `Type::Trait::method`; it is selected only when named explicitly
